@@ -1,6 +1,7 @@
 import Tickit.Model.LifeOut
 import Tickit.Model.LifeTmp
 import Tickit.Model.LifeKids
+import Tickit.Model.LifeProc
 import Tickit.Gen.Life
 import Tickit.Driver.Common
 import Tickit.Driver.Sgr
@@ -41,6 +42,7 @@ structure DSt where
   crashed : Option String := none      -- the model's prediction: the process is dead
   implDead : Bool := false             -- the implementation has printed CRASH in this history
   mock : Bool := false
+  proc : ProcSt := {}                  -- the process watches of the instance (`Model/LifeProc.lean`)
 
 instance : Inhabited DSt := ⟨{}⟩
 
@@ -336,8 +338,35 @@ def stepKids (d : DSt) (w n : Nat) (impl : String) : DSt × String × String :=
     | some r => (d', r ++ dumpTop top, sv)
     | none => ({ d' with crashed := some "CRASH exit=1" }, "CRASH exit=1", sv)
 
+/-- `tickit_watch_cancel` of a process watch cancels the pending delivery (`if(this->process.notify) …` stands outside the
+    `if(t->evhooks->cancel_process)` block: it is reached with the default loop, which has no such hook). -/
+def cancelsNote : Bool := true
+
+/-- `iproc <exited>` / `iproccancel <k>`: `tickit_watch_process` on a child of the harness's that has exited already or
+    is still running, `tickit_watch_cancel` of such a watch. -/
+def stepProc (d : DSt) (f : ProcSt → Option ProcSt) (impl : String) : DSt × String × String :=
+  let implDeadNow := impl.startsWith "CRASH"
+  let top := d.otop.top
+  let sv := specCheck d top.st (instRefs top) (xRefs top) .pen impl
+  let d' := { d with implDead := d.implDead || implDeadNow }
+  match d.crashed with
+  | some c => (d', c, sv)
+  | none =>
+    if !instHeld top then (d', "skip" ++ dumpTop top, sv) else
+    match f d.proc with
+    | some p => ({ d' with proc := p }, "ok" ++ dumpTop top, sv)
+    | none => (d', "skip" ++ dumpTop top, sv)
+
 def step (d : DSt) (ts : List String) (impl : String) : DSt × String × String :=
   match ts with
+  | ["iproc", e] =>
+    match nat? e with
+    | some e => stepProc d (fun p => if p.recs.size < procCap then some (p.watch (e ≠ 0)) else none) impl
+    | none => (d, "bad-op", "")
+  | ["iproccancel", k] =>
+    match nat? k with
+    | some k => stepProc d (fun p => if p.pending k then some (p.cancel cancelsNote k) else none) impl
+    | none => (d, "bad-op", "")
   | ["kids", w, n] =>
     match nat? w, nat? n with
     | some w, some n => stepKids d w n impl
@@ -381,9 +410,18 @@ def step (d : DSt) (ts : List String) (impl : String) : DSt × String × String 
           | _ => res
         let logs := logs ++ String.join (o1.io.log.map (· ++ " "))
         let o1 := { o1 with io := { o1.io with log := [] } }
+        let ticked := match yop with
+          | .x (.itick _) => res = "ok"
+          | _ => false
+        match procAfter top ticked d.proc with
+        | .ub k _ => ({ d with otop := o0, crashed := some (crashText k), implDead := d.implDead || implDeadNow }, crashText k, specCheck d top0.st (instRefs top0) (xRefs top0) op impl)
+        | .fuel => ({ d with crashed := some "MODEL-OUT-OF-FUEL", implDead := d.implDead || implDeadNow }, "MODEL-OUT-OF-FUEL", specCheck d top0.st (instRefs top0) (xRefs top0) op impl)
+        | .ok proc =>
+        let logs := logs ++ String.join (proc.log.map (· ++ " "))
+        let proc := { proc with log := [] }
         let m := logs ++ res ++ dumpTop top ++ tail
         let sv := specCheck d st (instRefs top) (xRefs top) op impl
-        ({ d with otop := { o1 with top := top }, implDead := d.implDead || implDeadNow }, m, sv)
+        ({ d with otop := { o1 with top := top }, proc := proc, implDead := d.implDead || implDeadNow }, m, sv)
       | .ub k what =>
         let c := crashText k
         let sv := specCheck d top0.st (instRefs top0) (xRefs top0) op impl
